@@ -189,7 +189,12 @@ func genFunctionsOpt(r *rand.Rand, nf int, table map[int]string, allowHuge bool)
 	sort.Ints(nums)
 	pickNum := func() int {
 		if r.Intn(12) == 0 {
-			return 100000 + r.Intn(1000) // not in the table: must be dropped, not reported
+			// not in the table: must be dropped, not reported - far away, or a table number with one high bit set (the x32
+			// bit among them)
+			if r.Intn(2) == 0 {
+				return nums[r.Intn(len(nums))] | 1<<uint([]int{30, 30, 29, 28, 20, 16, 12}[r.Intn(7)])
+			}
+			return 100000 + r.Intn(1000)
 		}
 		return nums[r.Intn(len(nums))]
 	}
